@@ -57,6 +57,8 @@ pub fn replay(cases: &str, verdicts: &str) {
             num_check(&mut v, "Matrix.var", guard(|| mx.var()), evar);
             num_check(&mut v, "std", guard(|| std(&x)), evar.sqrt());
             num_check(&mut v, "Vector.std", guard(|| vx.std()), evar.sqrt());
+            // population covariance is defined from one observation on (it is 0 there)
+            if n == 1 { num_check(&mut v, "covariance", guard(|| covariance(&x, &y)), ecov); }
             if n >= 2 {
                 num_check(&mut v, "sample_var", guard(|| sample_var(&x)), esvar);
                 num_check(&mut v, "Vector.sample_var", guard(|| vx.sample_var()), esvar);
@@ -83,6 +85,32 @@ pub fn replay(cases: &str, verdicts: &str) {
             eq_check(&mut v, "argmax", guard(|| argmax(&x) as f64), eamax as f64);
             eq_check(&mut v, "Vector.argmin", guard(|| vx.argmin() as f64), eamin as f64);
             eq_check(&mut v, "Vector.argmax", guard(|| vx.argmax() as f64), eamax as f64);
+        }
+        // scale laws of the definitions (Inv_Laws) at extreme power-of-two scales: exact, no absolute threshold may enter
+        if v.cases % 2 == 0 {
+            for e in [-70i32, 60] {
+                let f = 2f64.powi(e);
+                let x: Vec<f64> = base.iter().map(|t| t * f).collect();
+                let y: Vec<f64> = ybase.iter().map(|t| t * f).collect();
+                let class = format!("{} scaled-{}", shape, if e < 0 { "tiny" } else { "huge" });
+                let vx = Vector::new(x.clone());
+                let mut rel = |v: &mut Verdicts, name: &str, g: Option<f64>, ex: f64, unit: f64| {
+                    v.check(g.map(|g| (g - ex).abs() <= 2f64.powi(-44) * unit).unwrap_or(false), name, &class, &c, json!({"got": g, "expected": ex, "scale_log2": e}));
+                };
+                rel(&mut v, "mean", guard(|| mean(&x)), emean * f, spread * f);
+                rel(&mut v, "welford_mean", guard(|| welford_mean(&x)), emean * f, spread * f);
+                rel(&mut v, "var", guard(|| var(&x)), evar * f * f, spread * spread * f * f);
+                rel(&mut v, "Vector.std", guard(|| vx.std()), evar.sqrt() * f, spread * f);
+                rel(&mut v, "covariance", guard(|| covariance(&x, &y)), ecov * f * f, spread * spread * f * f);
+                if n >= 2 {
+                    rel(&mut v, "sample_var", guard(|| sample_var(&x)), esvar * f * f, spread * spread * f * f);
+                    rel(&mut v, "sample_covariance", guard(|| sample_covariance(&x, &y)), escov * f * f, spread * spread * f * f);
+                    rel(&mut v, "sample_covariance_onepass", guard(|| sample_covariance_onepass(&x, &y)), escov * f * f, spread * spread * f * f);
+                    rel(&mut v, "sample_covariance_online", guard(|| sample_covariance_online(&x, &y)), escov * f * f, spread * spread * f * f);
+                }
+                let okm = guard(|| min(&x) == emin * f && max(&x) == emax * f && argmin(&x) == eamin && argmax(&x) == eamax && vx.argmin() == eamin && vx.argmax() == eamax);
+                v.check(okm == Some(true), "min/max/argmin/argmax", &class, &c, json!(okm));
+            }
         }
         // signed zeros: -0.0 in place of 0 changes nothing numerically
         if base.iter().any(|t| *t == 0.0) {
